@@ -38,6 +38,8 @@ def jobs(tier):
     J = [dict(side="bound", k=1), dict(side="zero", k=1), dict(side="zero", k=2), dict(side="zero", k=3)]
     for d in (1, 2, 3, 4):
         J.append(dict(side="regular", k=1, d=d))
+    J.append(dict(side="regular", k=2, d=2, fixed="gc+dead"))
+    J.append(dict(side="regular", k=2, d=1, fixed="cycle+dead"))
     for d in (2, 3, 4):
         J.append(dict(side="early", k=1, d=d))
     J.append(dict(side="witness"))
@@ -97,6 +99,23 @@ def body(e, L, cfg):
         g = GraphU(k, fixed=scenarios.GC2)
     elif cfg.get("fixed") == "complete":
         g = GraphU(k, fixed=[[succ(v, j, k) for j in range(4)] for v in range(4 ** k)])
+    elif cfg.get("fixed") == "cycle+dead":
+        base = [[-1] * 4 for _ in range(16)]
+        base[10][2], base[2][2], base[12][2], base[4][2] = 10, 10, 2, 2      # GG self-loop with transient vertices AG, TA -> AG, CA -> AG:
+        g = GraphU(k, fixed=base)                                             # every live vertex has exactly 1 live successor
+        for v in (2, 4, 10, 12):
+            for j in range(4):
+                if base[v][j] < 0:
+                    g.arc[v][j] = z3.Bool("dead_%d_%d" % (v, j))
+    elif cfg.get("fixed") == "gc+dead":
+        # the 2-regular GC-balanced order-2 graph plus SYMBOLIC arcs from live vertices into dead-end vertices
+        from symx import scenarios
+        g = GraphU(k, fixed=scenarios.GC2)
+        livev = [v for v in range(16) if any(x >= 0 for x in scenarios.GC2[v])]
+        for v in livev[:6]:
+            for j in range(4):
+                if scenarios.GC2[v][j] < 0 and succ(v, j, k) not in livev:
+                    g.arc[v][j] = z3.Bool("dead_%d_%d" % (v, j))
     else:
         g = GraphU(k)
     N = g.N
@@ -136,14 +155,32 @@ def body(e, L, cfg):
             return {"status": "inconclusive", "why": "solver unknown on the one-step invariant"}
         mm = e._ensure_model()
         return {"status": "ok", "sample": {"bound": "one step from an arbitrary vector", "graph": g.model_rows(mm) if N <= 16 else cfg.get("fixed")}}
+    if side == "regular" and cfg.get("fixed"):
+        # window of symbolic dead-end arcs, enumerated exhaustively by the solver; each path runs on concrete binary64 numbers
+        import math
+        d = cfg["d"]
+        free = [a for row in g.arc for a in row if not (z3.is_true(a) or z3.is_false(a))]
+        for a in free:
+            e.decide(a)
+        m = e._ensure_model()
+        rows = g.model_rows(m)
+        r, _ = e.check(z3.Or([a != z3.BoolVal(z3.is_true(m.eval(a, model_completion=True))) for a in free]) if free else z3.BoolVal(False))
+        if r != "unsat":
+            raise core.Inconclusive("path does not pin the arcs")
+        val = L.approximate_capacity(symnp.array(rows), repeats=1)
+        if core.is_sym(val) or abs(float(val) - math.log2(d)) > 1e-12:
+            return {"status": "viol", "why": "deterministic mode returns %r, not log2 %d, on a graph whose live vertices all have %d live successors" % (val, d, d),
+                    "cex": {"kind": "capacity", "acc": rows, "repeats": 1}}
+        return {"status": "ok", "sample": {"regular": d, "order": k, "dead_end_arcs": sum(1 for a in free if z3.is_true(m.eval(a, model_completion=True)))}}
     if side == "regular":
         d = cfg["d"]
-        live = [g.live(v) for v in range(N)]
-        cons = [z3.Or(live)]
-        for v in range(N):
-            # exactly d LIVE successors; further arcs into dead-end vertices are allowed (they carry no weight)
-            cons.append(z3.Implies(live[v], z3.Sum([z3.If(z3.And(g.arc[v][j], live[succ(v, j, k)]), 1, 0) for j in range(4)]) == d))
-        e.assume(z3.And(cons))
+        if not cfg.get("fixed"):
+            live = [g.live(v) for v in range(N)]
+            cons = [z3.Or(live)]
+            for v in range(N):
+                # exactly d LIVE successors; further arcs into dead-end vertices are allowed (they carry no weight)
+                cons.append(z3.Implies(live[v], z3.Sum([z3.If(z3.And(g.arc[v][j], live[succ(v, j, k)]), 1, 0) for j in range(4)]) == d))
+            e.assume(z3.And(cons))
         acc.budget = symnp.AccessBudget(6)
         try:
             r = L.approximate_capacity(acc, repeats=1)
